@@ -136,11 +136,15 @@ def jsonHello (c : Case) : Verdict :=
     let why := ((c.output.getD "why" "?").splitOn ":").headD "?"
     .ok s!"{src},unrep:{why}"
   | "jsonerr" =>
+    -- the raw import of the hello succeeded and the document is the hello's description in the format:
+    -- a JSON import that fails here is the property failing on the implementation's own output
+    let allowJ := ((c.input.getD "opts" "00").take 1).toString == "1"
     match namesOf (c.output.getD "jsuites" "-") ",", namesOf (c.output.getD "jcomps" "-") ",", parseJExts (c.output.getD "jexts" "-") with
     | some su, some co, some ex =>
-      match specOfJson tables ⟨su, co, ex⟩ with
-      | none => .propFail s!"{src},jsonerr" s!"rendered-names-rejected-by-UnmarshalJSON msg={c.output.getD "msg" ""}"
-      | some s => .diff s!"{src},jsonerr" (showShape s)
+      let pred := match specOfJsonOpt tables Gen.Dict.extNilIds allowJ ⟨su, co, ex⟩ with
+        | none => "model-also-rejects"
+        | some s => s!"model-decodes:{showShape s}"
+      .propFail s!"{src},jsonerr,opts={c.input.getD "opts" "00"}" s!"json-import-fails-where-raw-import-succeeds msg={c.output.getD "msg" ""} {pred}"
     | _, _, _ => .bad "json_hello: bad skeleton"
   | "ok" =>
     match namesOf (c.output.getD "jsuites" "-") ",", namesOf (c.output.getD "jcomps" "-") ",", parseJExts (c.output.getD "jexts" "-"),
@@ -148,7 +152,11 @@ def jsonHello (c : Case) : Verdict :=
     | some su, some co, some ex, some sImpl, some rImpl =>
       let hasGrease := rImpl.suites.any isGrease || rImpl.exts.any (fun e => isGrease e.id)
       let aliasMode := c.input.getD "alias" "0" == "1"
-      let tag := s!"{src},ok,exts={sizeClass rImpl.exts.length},{if hasGrease then "grease" else "nogrease"}{if aliasMode then ",alias" else ""}"
+      let optS := c.input.getD "opts" "00"
+      let allowJ := (optS.take 1).toString == "1"
+      let hasPsk := rImpl.exts.any (fun e => e.id == 41)
+      let hasGeneric := rImpl.exts.any (fun e => Gen.Dict.extNilIds.contains e.id)
+      let tag := s!"{src},ok,exts={sizeClass rImpl.exts.length},{if hasGrease then "grease" else "nogrease"}{if aliasMode then ",alias" else ""}{if optS == "00" then "" else s!",opts={optS}"}{if hasPsk then ",psk" else ""}{if hasGeneric then ",generic" else ""}"
       let jw := c.output.getD "jwire" "?"
       let rw := c.output.getD "rwire" "?"
       -- monitor: the property itself, on the two wire hellos the implementation built
@@ -156,7 +164,7 @@ def jsonHello (c : Case) : Verdict :=
       else
         -- tie: the model predicts what UnmarshalJSON decoded, and the model's rendering of the raw
         -- shape is the skeleton the harness rendered
-        match specOfJson tables ⟨su, co, ex⟩ with
+        match specOfJsonOpt tables Gen.Dict.extNilIds allowJ ⟨su, co, ex⟩ with
         | none => .diff tag "model: specOfJson = none"
         | some sModel =>
           if sModel ≠ sImpl then .diff tag (showShape sModel)
@@ -164,7 +172,7 @@ def jsonHello (c : Case) : Verdict :=
             -- with alias spellings (alias=1) the harness deliberately does not render the canonical names,
             -- and code points that only an alias spells (0x0202) have no canonical rendering at all
             let renderOk : Option String :=
-              if aliasMode then none
+              if aliasMode || allowJ then none
               else
                 match renderJson tables rImpl with
                 | none => some "model: renderJson = none (harness rendered a document)"
